@@ -94,8 +94,11 @@ def strings(dialect):
     un = ["abc", "ABC_1", "a1", "Abc", "A__B", "A_B_C", "a__1", "A1_2_c"]
     if dialect in ("PVL", "ISIS", "OMNI"):
         un += ["a.b", "a-b", "a:b", "x/y", "a*b", "a_", "_a", "a@b", "a$b", "a\\b", "a?", "a^b", "a`b"]
+        un += ["Mare\xa0Imbrium", "a\xadb", "\xb5m"]       # Latin-1 characters that are not PVL white space
     if dialect in ("ISIS", "OMNI"):
         un += ["a+b"]
+    if dialect == "OMNI":
+        un += ["a\x85b", "a\u2003b", "a\u3000b", "a\u2028b", "caf\xe9\u4e2d"]   # every character is allowed there
     for s in un:
         out.append((s, s, "ustr"))
     return out
